@@ -251,6 +251,17 @@ pub fn run(out: &mut Out, tier: &str, rng: &mut Rng) {
             all4(out, &m, true);
         }
     }
+    out.comment("real-world subtags and look-alikes of the special values (und, true, root, ZZ, Zzzz)");
+    for s in crate::corpus::REALWORLD.iter() { for t in s.split(|c| c == '-' || c == '_') { all4(out, t.as_bytes(), true); } }
+    for t in crate::gen::REGISTERED_VARIANTS.iter() { all4(out, t.as_bytes(), true); all4(out, t.to_uppercase().as_bytes(), true); }
+    for stem in ["und", "UND", "Und", "unD", "root", "true", "zz", "zzzz", "ZZ", "Zzzz"] {
+        for tail in ["", "e", "ef", "ine", "ergo", "ulate", "x", "1", "efghi", "_", "-"] {
+            let w = format!("{}{}", stem, tail);
+            all4(out, w.as_bytes(), true);
+            let w = format!("{}{}", tail, stem);
+            all4(out, w.as_bytes(), true);
+        }
+    }
     out.comment("random strings");
     let n = if thorough { 2_000_000 } else { 100_000 };
     let alnum = b"abcdefghijklmnopqrstuvwxyzABCDEFGHIJKLMNOPQRSTUVWXYZ0123456789";
